@@ -45,7 +45,8 @@ class State:
         self.pc = []
         self.epochs = {}        # root location -> int
         self.moved = set()
-        self.streams = {}       # sid -> list of segments
+        self.streams = {}       # sid -> VSeq (bytes written so far)
+        self.fs = None          # (data: Array Int (Array Int Int), lens: Array Int Int, exists: Array Int Bool) or None
         self.next_oid = [0]
         self.writelog = None    # shared list during loop dry-runs
         self.inplace = {}       # container field/var -> number of in-place mutations (alias staleness check)
@@ -60,13 +61,14 @@ class State:
         s.pc = list(self.pc)
         s.epochs = dict(self.epochs)
         s.moved = set(self.moved)
-        s.streams = {k: list(v) for k, v in self.streams.items()}
+        s.streams = dict(self.streams)
         s.next_oid = self.next_oid
         s.writelog = self.writelog
         s.inplace = dict(self.inplace)
         s.nwrites = self.nwrites
         s.rebound = set(self.rebound)
         s.rebindcnt = dict(self.rebindcnt)
+        s.fs = self.fs
         return s
 
     def new_oid(self):
@@ -370,6 +372,8 @@ class Exec:
             return TFilePtr()
         if isinstance(v, VOpaque):
             return TAny()
+        if isinstance(v, VStream):
+            return TStream()
         raise Unsupported(f"no type for {v}")
 
     def fresh_terms(self, t, name):
@@ -400,8 +404,16 @@ class Exec:
             return VRef(("obj", oid), t.cls)
         if isinstance(t, TNone):
             return VNone()
+        if isinstance(t, TAny) and getattr(t, "structfmt", None) is not None:
+            return VStructFmt(t.structfmt)
         if isinstance(t, TAny):
             return VOpaque("foreign" if getattr(t, "foreign", False) else name)
+        if isinstance(t, TStream):
+            sid = st.new_oid()
+            content = self.flat.fresh(parse_type("bytes"), name + "_written")
+            st.pc += self.flat.facts(parse_type("bytes"), content)
+            st.streams[sid] = content
+            return VStream(sid)
         v = self.flat.fresh(t, name)
         if facts:
             st.pc += self.flat.facts(t, v)
